@@ -168,6 +168,8 @@ def run(spec, tier, prop, mg, max_paths=400, max_seconds=120.0, timeout_ms=10000
                 else:
                     res["boundary_paths"] += 1
                     continue
+            if spec.get("check_defined"):
+                _check_defined(res, spec, prop, p)
             leaves = [(n, arrs[n], grads[n]) for n in arrs]
             r = vjp.check_grads(p, L, leaves, timeout_ms=timeout_ms)
             res["unsat"] += r["unsat"]
@@ -261,6 +263,42 @@ def model_env(model, arrs, extra_names=()):
         for e in np.asarray(a, dtype=object).reshape(-1):
             envn[e.t.val] = model.get(e.t.val, 0) if model else 0
     return envn
+
+
+def _check_defined(res, spec, prop, p):
+    """definedness: every point of the spec's domain (the case's `assume`) must keep the implementation inside the reals; an obligation
+    recorded while executing (denominator != 0, log argument > 0, ...) that can fail under the path condition alone is a finding"""
+    import z3
+
+    base = [tm.to_z3(c) for c in p.pc] + [tm.to_z3(c) for c in p.dom if c not in p.oblig]
+    for ob in p.oblig:
+        sol = z3.Solver()
+        sol.set("timeout", 5000)
+        sol.add(*base)
+        sol.add(z3.Not(tm.to_z3(ob)))
+        r = str(sol.check())
+        res[r if r in ("sat", "unsat") else "unknown"] += 1
+        if r != "sat":
+            continue
+        m = sol.model()
+        model = {}
+        for d in m.decls():
+            v = m[d]
+            try:
+                model[d.name()] = float(v.as_fraction()) if hasattr(v, "as_fraction") else float(str(v))
+            except Exception:
+                pass
+        src = replay_tpl.defined_replay(prop, spec, model)
+        path = common.write_replay(prop, _safe(spec["name"] + "_defined"), src)
+        ok, out = common.run_replay(path)
+        if ok is True:
+            res["status"] = common.VIOLATION
+            res["violations"].append({"signature": "%s:undefined" % spec["name"], "replay": path,
+                                      "summary": "`%s`: inside the operation's domain the implementation evaluates outside the reals (needs %s): non-finite gradient"
+                                      % (spec["body"].replace("\n", "; ")[:80], tm.show(ob, 3))})
+        else:
+            res["notes"].append("definedness counterexample did not reproduce (%s)" % tm.show(ob, 3))
+        return
 
 
 def _handle_cex(res, spec, prop, cex, p, arrs, L, grads):
